@@ -353,7 +353,7 @@ struct Punish {
         }
         if (cls == "block_high_hash") s.bad_pow = true;
         if (cls == "block_bad_version") s.version = 1;
-        if (cls == "block_time_old") s.time = net.TipTime() - 20;
+        if (cls == "block_time_old") s.time = static_cast<uint32_t>(WITH_LOCK(cs_main, return net.chainman().ActiveChain().Tip()->GetMedianTimePast())); // must be > MTP
         if (cls == "block_time_future") s.time = static_cast<uint32_t>(net.Now() + 3 * 3600);
         if (cls == "block_bad_bits") s.bits = net.Bits() - 1;
         if (cls == "block_on_invalid_parent") {
@@ -363,7 +363,7 @@ struct Punish {
         if (cls == "block_bad_cb_height") {
             auto b = net.BuildBlock(s);
             CMutableTransaction cb(*b->vtx[0]);
-            cb.vin[0].scriptSig = CScript() << (s.height + 1) << OP_0 << OP_0;
+            cb.vin[0].scriptSig = CScript() << (s.height + 1) << CScriptNum(static_cast<int64_t>(rng.below(1 << 30)) + 0x10000) << OP_0;
             b->vtx[0] = MakeTransactionRef(cb);
             b->hashMerkleRoot = BlockMerkleRoot(*b);
             Grind(*b, true);
